@@ -59,7 +59,8 @@ Inductive prog : Type :=
 | PTry (a b : prog)            (* try: a  except AttributeError: b *)
 | PSeq (a b : prog).           (* evaluate a, discard its value, then b *)
 
-Inductive postop : Type := PoId | PoAdd (z : Z) | PoConst (v : value) | PoIsNone | PoRaise (e : exn) | PoYield2.
+Inductive postop : Type := PoId | PoAdd (z : Z) | PoConst (v : value) | PoIsNone | PoRaise (e : exn) | PoYield2
+  | PoPre (e : exn).     (* the wrapper raises e BEFORE its yield: the rest of the chain is never asked *)
 
 Inductive ibody : Type :=
 | Plain (p : prog)
@@ -133,6 +134,7 @@ Definition apply_post (p : postop) (x : value) : outcome :=
   | PoIsNone => Val (VBool (is_none x))
   | PoRaise e => Exn e
   | PoYield2 => Exn ESyntax
+  | PoPre e => Exn e
   end.
 
 (* Hook.__get__ on an instance, given the function that computes Hook.get_result *)
@@ -199,6 +201,8 @@ Fixpoint exec (gr : state -> obj -> cls -> hook -> state * outcome) (o : obj)
       match ra with Exn e => (st1, Exn e) | Val _ => exec gr o b cy st1 end
   end.
 
+Definition pre_raise (p : postop) : option exn := match p with PoPre e => Some e | _ => None end.
+
 Definition after_call (st1 : state) (i : iid) : list iid :=     (* the finally block *)
   if restore_flag S_ then remove_first i (cyc st1) else filter (fun j => negb (Nat.eqb i j)) (cyc st1).
 
@@ -215,13 +219,13 @@ Definition call (gr : state -> obj -> cls -> hook -> state * outcome) (o : obj) 
       | Plain p => exec gr o p was st0
       | Wrapper guarded post =>
           if (guarded && was)%bool then (st0, Val VNone)
-          else
+          else match pre_raise post with Some e => (st0, Exn e) | None =>
             let cin := if wrapper_inner_from_instance S_ then c else i_owner im in
             let '(sti, ri) := gr st0 o cin h in
             match ri with
             | Exn e => (sti, Exn e)
             | Val x => (sti, apply_post post x)
-            end
+            end end
       end in
     (set_cyc st1 (after_call st1 i), r)
   end.
